@@ -113,6 +113,110 @@ func (P *Prog) reachesDeep(v ssa.Value, pred func(ssa.Value) bool) bool {
 	return found
 }
 
+// offsetExact: v is, on every path, the 32-bit value of a ForkInfoList.DataSize (converted), or the constant 0 on a
+// path on which no offset was parsed (a block not reachable from the parsing instruction); phis, helper results
+// and helper parameters are followed.  at is the block in which a non-phi leaf is judged.
+func (P *Prog) offsetExact(v ssa.Value, at *ssa.BasicBlock, depth int) (bool, string) {
+	if depth > 6 {
+		return false, "derivation too deep"
+	}
+	v = stripConv(v)
+	switch x := v.(type) {
+	case *ssa.Const:
+		k, ok := constInt(x)
+		if !ok || k != 0 {
+			return false, "a constant other than 0 is skipped"
+		}
+		fn := at.Parent()
+		for _, b := range fn.Blocks {
+			parses := false
+			for _, ins := range b.Instrs {
+				if val, ok := ins.(ssa.Value); ok && isResumeOffsetSource(val) {
+					parses = true
+				}
+			}
+			if parses && (b == at || reachableFrom(b, nil)[at]) {
+				return false, "the offset is replaced by 0 after it was parsed (in " + fname(fn) + ")"
+			}
+		}
+		return true, ""
+	case *ssa.Phi:
+		for i, e := range x.Edges {
+			if ok, why := P.offsetExact(e, x.Block().Preds[i], depth+1); !ok {
+				return false, why
+			}
+		}
+		return true, ""
+	case *ssa.Call:
+		n := calleeName(&x.Call)
+		if strings.HasSuffix(n, ".Uint32") && strings.Contains(n, "encoding/binary") {
+			a := x.Call.Args[len(x.Call.Args)-1]
+			if sl, ok := a.(*ssa.Slice); ok && sl.Low == nil && sl.High == nil && isResumeOffsetSource(sl.X) {
+				return true, ""
+			}
+			return false, "the value decoded is not ForkInfoList.DataSize"
+		}
+		h, ok := x.Call.Value.(*ssa.Function)
+		if !ok || h.Blocks == nil || !P.isRepoPkg(pkgOf(h)) {
+			return false, "the amount is computed by " + n
+		}
+		for _, ret := range returnsOf(h) {
+			if len(ret.Results) != 1 {
+				return false, "helper with several results"
+			}
+			if ok, why := P.offsetExact(ret.Results[0], ret.Block(), depth+1); !ok {
+				return false, why
+			}
+		}
+		return true, ""
+	case *ssa.Parameter:
+		fn := x.Parent()
+		idx := -1
+		for i, q := range fn.Params {
+			if q == x {
+				idx = i
+			}
+		}
+		sites := P.callers[fn]
+		if len(sites) == 0 || idx < 0 {
+			return false, "parameter without call sites"
+		}
+		for _, site := range sites {
+			c := site.Common()
+			if c.IsInvoke() || idx >= len(c.Args) {
+				return false, "parameter passed dynamically"
+			}
+			if ok, why := P.offsetExact(c.Args[idx], site.Block(), depth+1); !ok {
+				return false, why
+			}
+		}
+		return true, ""
+	case *ssa.UnOp:
+		if x.Op == token.MUL {
+			if a, ok := x.X.(*ssa.Alloc); ok {
+				// a local captured by a closure: every store
+				n := 0
+				for _, f := range withAnons(rootFn(a.Parent())) {
+					for _, b := range f.Blocks {
+						for _, ins := range b.Instrs {
+							if st, ok := ins.(*ssa.Store); ok && cellOfAddr(st.Addr) == ssa.Value(a) {
+								n++
+								if ok, why := P.offsetExact(st.Val, b, depth+1); !ok {
+									return false, why
+								}
+							}
+						}
+					}
+				}
+				if n > 0 {
+					return true, ""
+				}
+			}
+		}
+	}
+	return false, "the amount is " + P.sym(v) + ", not the decoded offset"
+}
+
 // isResumeOffsetSource: a read of ForkInfoList.DataSize (the client's resume offset).
 func isResumeOffsetSource(x ssa.Value) bool {
 	if fa, ok := x.(*ssa.FieldAddr); ok {
@@ -241,6 +345,13 @@ func (R *Run) ruleResumeSkip(fnName string) {
 			R.check(skip != nil, "resume-skip", construct, P.ipos(ci),
 				"the resume offset is skipped on the copied reader before the copy",
 				"the client's resume offset (ForkInfoList.DataSize) never reaches a Seek/Discard on the reader whose bytes are copied: a resumed transfer is announced without the skipped part but sent from byte 0")
+			if skip != nil {
+				_, amount := skipOn(skip.Common())
+				exact, why := P.offsetExact(amount, skip.Block(), 0)
+				R.check(exact, "resume-skip", construct+": amount", P.ipos(skip),
+					"the amount skipped is the client's offset itself on every path that parsed one (0 only where none was parsed)",
+					"the amount skipped is not the client's resume offset on every path: "+why+" — the reply announces size − offset, so any other amount sends bytes the client did not ask for or drops some")
+			}
 		}
 	}
 	if n == 0 {
@@ -1128,8 +1239,8 @@ func firstItemRead(fn *ssa.Function, rwc ssa.Value) ssa.Instruction {
 		return (n == "io.ReadFull" || n == "io.ReadAtLeast") && stripConv(c.Args[0]) == stream
 	}
 	for _, b := range fn.Blocks {
-		// a loop block: reaches itself
-		if !reachableFrom(b, nil)[b] {
+		// a loop block: lies on a cycle
+		if !inLoop(b) {
 			continue
 		}
 		for _, ins := range b.Instrs {
@@ -1156,4 +1267,153 @@ func firstItemRead(fn *ssa.Function, rwc ssa.Value) ssa.Instruction {
 		}
 	}
 	return nil
+}
+
+// rulePartialPreserved (C09/C10): the bytes already received for an interrupted upload live in "<name>.incomplete"
+// and are what a resumed upload continues from.  Outside the user-requested Delete / Move of the whole file (which
+// go through the fileWrapper's path fields) no server code may remove, truncate, recreate or overwrite a path built
+// with the partial-file suffix: the only operations on such a path are Stat, open for appending, open for reading,
+// and the rename onto the final name.
+func (R *Run) rulePartialPreserved() {
+	P := R.P
+	R.rule("partial-preserved", "every filesystem call whose path is built with IncompleteFileSuffix is Stat/Lstat, Open, OpenFile with O_APPEND and without O_TRUNC, or Rename with the partial file as source: nothing removes, truncates, recreates or renames something onto a partial upload")
+	n := 0
+	for _, fn := range P.Funcs {
+		if fn.Pkg == nil || fn.Pkg.Pkg.Path() == cmdPath || isClientLibrary(fn) {
+			continue
+		}
+		for _, ci := range callsIn(fn) {
+			c := ci.Common()
+			idxs := pathArgs(c)
+			for k, i := range idxs {
+				s := P.sym(c.Args[i])
+				if !strings.Contains(s, incompleteSuffixSym) {
+					continue
+				}
+				n++
+				name := calleeName(c)
+				op := name
+				if c.IsInvoke() {
+					op = c.Method.Name()
+				} else if j := strings.LastIndex(name, "."); j >= 0 {
+					op = name[j+1:]
+				}
+				construct := fmt.Sprintf("%s: %s #%d arg %d", fname(fn), sed(name), nCreateIn(fn, ci), i)
+				R.analysed(fname(fn))
+				switch op {
+				case "Stat", "Lstat", "Open":
+					R.ok("partial-preserved", construct, P.ipos(ci), "read-only use of the partial file")
+				case "OpenFile":
+					flags, ok := constInt(c.Args[i+1])
+					good := ok && (flags&0x3 == 0 || (flags&0x400 != 0 && flags&0x200 == 0))
+					R.check(good, "partial-preserved", construct, P.ipos(ci), "opened read-only or for appending", "the partial file is opened for writing without O_APPEND or with O_TRUNC: the bytes received before the interruption are overwritten or discarded")
+				case "Rename":
+					R.check(k == 0, "partial-preserved", construct, P.ipos(ci), "partial file renamed away (published)", "something is renamed onto a partial upload, replacing the bytes received so far")
+				default:
+					R.bad("partial-preserved", construct, P.ipos(ci), op+" on a partial upload: the bytes received before an interruption are lost, while the server goes on telling the client to resume from them (or the client resumes and only its tail is kept)")
+				}
+			}
+		}
+	}
+	R.floor("partial-preserved", 6)
+}
+
+// ruleReceiveErrors (C09/C10): publishing an upload hinges on "receiveFile returned nil ⇒ every byte the client
+// declared was read and written".  Decided per fallible step of the two functions on that path: with the step's
+// error assumed non-nil, nil-sensitive reachability must find a provably non-nil error at every return it reaches.
+func (R *Run) ruleReceiveErrors() {
+	P := R.P
+	R.rule("receive-errors-propagate", "in receiveFile and flattenedFileObject.ReadFrom no fallible step (binary.Read, io.ReadFull, io.Copy, io.CopyN, ReadFrom) has its error dropped, and with that step's error assumed non-nil every return reachable from it carries a provably non-nil error (in particular a stream that ends early — io.EOF / io.ErrUnexpectedEOF — is never turned into success)")
+	for _, name := range []string{"hotline.receiveFile", "(*hotline.flattenedFileObject).ReadFrom"} {
+		fn := R.mustFn(name)
+		if fn == nil {
+			continue
+		}
+		R.analysed(fname(fn))
+		res := fn.Signature.Results()
+		errIdx := -1
+		for i := 0; i < res.Len(); i++ {
+			if isErrorType(res.At(i).Type()) {
+				errIdx = i
+			}
+		}
+		if errIdx < 0 {
+			R.bad("receive-errors-propagate", fname(fn), P.pos(fn.Pos()), "the function no longer returns an error")
+			continue
+		}
+		for _, ci := range callsIn(fn) {
+			c, ok := ci.(*ssa.Call)
+			if !ok {
+				continue
+			}
+			sig := c.Call.Signature()
+			hasErr := false
+			for i := 0; i < sig.Results().Len(); i++ {
+				if isErrorType(sig.Results().At(i).Type()) {
+					hasErr = true
+				}
+			}
+			n := calleeName(&c.Call)
+			if !hasErr || n == "fmt.Errorf" || n == "errors.New" {
+				continue
+			}
+			construct := fmt.Sprintf("%s: %s #%d", fname(fn), sed(n), nCreateIn(fn, ci))
+			ev := errResult(c)
+			if ev == nil {
+				R.bad("receive-errors-propagate", construct, P.ipos(ci), "the error of this step is dropped: a stream that ends here is taken for a complete upload")
+				continue
+			}
+			leak, rewritten := "", false
+			check := func(b *ssa.BasicBlock, ns nilState) {
+				ret, ok := b.Instrs[len(b.Instrs)-1].(*ssa.Return)
+				if !ok || errIdx >= len(ret.Results) {
+					return
+				}
+				rv := ret.Results[errIdx]
+				if ns.of(rv) == 2 {
+					return
+				}
+				if u, ok := rv.(*ssa.UnOp); ok && u.Op == token.MUL {
+					if _, isCell := u.X.(*ssa.Alloc); isCell {
+						// a named result held in memory (captured by deferred code): its last store in this block
+						if sv := retValue(ret, errIdx); sv != rv && ns.of(sv) == 2 && !deferWritesResult(fn, u.X.(*ssa.Alloc)) {
+							return
+						}
+						rewritten = true
+					}
+				}
+				leak = P.ipos(ret)
+			}
+			check(c.Block(), nilState{ev: 2})
+			nilReachVisit(c, map[ssa.Value]bool{ev: false}, check)
+			switch {
+			case leak != "" && rewritten:
+				R.bad("receive-errors-propagate", construct, P.ipos(ci), "the error result is a named result that deferred code rewrites; after this step fails the return at "+leak+" is not provably an error (an early end of stream can come back as success)")
+			case leak != "":
+				R.bad("receive-errors-propagate", construct, P.ipos(ci), "after this step fails, the return at "+leak+" can still report success")
+			default:
+				R.ok("receive-errors-propagate", construct, P.ipos(ci), "failure reaches only returns with a non-nil error")
+			}
+		}
+	}
+	R.floor("receive-errors-propagate", 8)
+}
+
+// deferWritesResult: some closure of fn stores into the captured result cell.
+func deferWritesResult(fn *ssa.Function, cell *ssa.Alloc) bool {
+	for _, f := range withAnons(fn) {
+		if f == fn {
+			continue
+		}
+		found := false
+		eachInstr(f, func(ins ssa.Instruction) {
+			if st, ok := ins.(*ssa.Store); ok && cellOfAddr(st.Addr) == ssa.Value(cell) {
+				found = true
+			}
+		})
+		if found {
+			return true
+		}
+	}
+	return false
 }
